@@ -440,7 +440,29 @@ def ob_cell3sec_setters(first):
                 goals.append(Goal("after %s: cell and sectors are where the current radius / rotation / position put them" % " > ".join(seq[:i + 1]),
                                   sym.SBool(z3.And(conj))))
             return goals
-        return verify(body, check_side=False, timeout_ms=60000)
+
+        def rp(mv):
+            # history replay on the real class
+            from pyphysim.cell import cell as cm
+            try:
+                o = cm.Cell3Sec(1 + 2j, 3.0, 5, 20.0)
+                vals = {"radius": [1.2, 4.5, 0.7], "rotation": [-40.0, 75.0, 10.0], "pos": [-3 + 1j, 8 - 2j, 0.5j]}
+                cur = {"radius": 3.0, "rotation": 20.0, "pos": 1 + 2j}
+                for i, op in enumerate(seq):
+                    setattr(o, op, vals[op][i])
+                    cur[op] = vals[op][i]
+                    ref = cm.Cell3Sec(cur["pos"], cur["radius"], 5, cur["rotation"])
+                    for k in (1, 2, 3):
+                        a, b = getattr(o, "_sec%d" % k), getattr(ref, "_sec%d" % k)
+                        if (not (abs(a.pos - b.pos) <= 1e-9 * cur["radius"])) or (not (abs(a.radius - b.radius) <= 1e-12 * cur["radius"])) \
+                                or (not (abs(a.rotation - b.rotation) <= 1e-12)):
+                            return {"confirmed": True, "history": ["%s = %r" % (q, vals[q][j]) for j, q in enumerate(seq[:i + 1])], "sector": k,
+                                    "sector (pos, radius, rotation)": [str(a.pos), a.radius, a.rotation],
+                                    "a cell built with the current values has": [str(b.pos), b.radius, b.rotation]}
+                return {"confirmed": False, "note": "real sectors follow the setters in this history"}
+            except Exception as e:
+                return {"confirmed": False, "error": "replay crashed: %r" % (e,)}
+        return verify(body, check_side=False, timeout_ms=60000, replay=rp)
     return merge([one(sq) for sq in seqs])
 
 
